@@ -176,7 +176,12 @@ def bad_status(res):
             if "failed printing to stderr" in m.group(3):
                 return "panic:failed-printing-to-stderr"
             loc = m.group(1)
-            loc = loc[loc.index("src/"):] if "src/" in loc and not loc.startswith("/rustc") else loc.split("/library/")[-1]
+            if "/registry/src/" in loc:
+                loc = loc.split("/registry/src/", 1)[1].split("/", 1)[-1]      # <crate>-<version>/src/...
+            elif loc.startswith("/rustc"):
+                loc = loc.split("/library/")[-1]
+            elif "src/" in loc:
+                loc = loc[loc.index("src/"):]
             return "panic:%s:%s" % (loc, m.group(2))
         return "panic:unknown-site"
     if rc == -6 and "overflowed its stack" in err:
